@@ -14,6 +14,7 @@ func (u *UseCase) Store(ctx context.Context, f model.File) error {
 	verifhook.At("core.store")
 	tx, ok := u.txStore.Get(f.TxId)
 	if !ok {
+		verifhook.At("core.store.create")
 		tx = u.txPool.Acquire()
 		u.txStore.Put(f.TxId, tx)
 	}
